@@ -39,6 +39,8 @@
 #include <pthread.h>
 #include <time.h>
 #include <unistd.h>
+#include <sched.h>
+#include <errno.h>
 
 namespace e3 {
 
@@ -141,7 +143,21 @@ inline void point(const char* kind, const char* nm = nullptr, const std::string&
 }
 // the pause()/spin_wait()/yield() replacement: one stutter step of the spinning participant
 inline void spin() { point("sp"); }
-struct Pause { static void pause() { spin(); } };   // for code templated on a Pause policy
+// for code templated on a Pause policy derive one in the harness AFTER including the header under
+// test:   struct E3Pause : PauseBase { static void pause() { e3::spin(); } };
+
+// Only one thread of the harness runs at any time, so pin the whole process to one CPU: the
+// hand-over then never needs a cross-CPU wake-up (100x faster inside a VM).  Call first in main().
+inline void pin_to_one_cpu() {
+    cpu_set_t all; CPU_ZERO(&all);
+    if (sched_getaffinity(0, sizeof all, &all) != 0) return;
+    std::vector<int> cpus;
+    for (int i = 0; i < CPU_SETSIZE; i++) if (CPU_ISSET(i, &all)) cpus.push_back(i);
+    if (cpus.empty()) return;
+    int c = cpus[(size_t)getpid() % cpus.size()];       // shards started together get consecutive pids
+    cpu_set_t set; CPU_ZERO(&set); CPU_SET(c, &set);
+    sched_setaffinity(0, sizeof set, &set);
+}
 
 // ---------------------------------------------------------------- controller
 struct Outcome {
@@ -155,7 +171,7 @@ struct Outcome {
 // Runs body(p) for p = 0..n-1, each on its own OS thread, serialised by the schedule.
 // Schedule entry e: participant e % n, flavor e / n.  Entries naming a finished participant are
 // skipped; when the schedule is exhausted the next unfinished participant after the last one run
-// (cyclically) is chosen with flavor 0; at most `bound` steps.  The same rule is implemented by
+// (cyclically) is chosen with flavor 0; at most `bound` scheduler decisions (skips included).  The same rule is implemented by
 // coq/E3/E3_Run.v (e3_run).  If the bound is reached the unfinished participants stay parked for
 // ever: their threads — and whatever they reference, the caller must leak it — are abandoned.
 inline Outcome run(int n, const std::vector<int>& sched, int bound, const std::function<void(int)>& body) {
@@ -184,7 +200,7 @@ inline Outcome run(int n, const std::vector<int>& sched, int bound, const std::f
         int p = -1, f = 0;
         if (pos < sched.size()) {
             int e = sched[pos++]; p = e % n; f = e / n;
-            if (r->finished[p]) continue;
+            if (r->finished[p]) { steps++; continue; }      // a skipped entry costs one unit of the bound
         } else {
             for (int k = 1; k <= n; k++) { int c = (last + k) % n; if (!r->finished[c]) { p = c; break; } }
         }
@@ -213,7 +229,7 @@ inline Outcome run(int n, const std::vector<int>& sched, int bound, const std::f
 
 // FNV-1a 64 over the log entries joined by ' ' (same function in the OCaml runners)
 inline uint64_t digest(const std::vector<std::string>& log) {
-    uint64_t h = 1469598103934665603ULL;
+    uint64_t h = 14695981039346656037ULL;
     bool first = true;
     for (auto& s : log) {
         if (!first) { h ^= (unsigned char)' '; h *= 1099511628211ULL; }
@@ -271,30 +287,33 @@ struct verif_atomic : public atomic<T> {
     bool compare_exchange_weak(T& e, T d, memory_order s, memory_order f) { return compare_exchange_strong(e, d, s, f); }
     bool compare_exchange_weak(T& e, T d, memory_order mo = memory_order_seq_cst) { return compare_exchange_strong(e, d, mo); }
 
-    template <class U = T> U fetch_add(U a, memory_order mo = memory_order_seq_cst) {
+    // operand type of the arithmetic RMWs: T itself, or ptrdiff_t for pointers (members of a class
+    // template are only instantiated when used, so non-arithmetic T is fine as long as unused)
+    using D = typename conditional<is_pointer<T>::value, ptrdiff_t, T>::type;
+    T fetch_add(D a, memory_order mo = memory_order_seq_cst) {
         e3::pre(); T o = B::fetch_add(a, mo); e3::post("fa", this, e3::show(a), e3::show(o)); return o;
     }
-    template <class U = T> U fetch_sub(U a, memory_order mo = memory_order_seq_cst) {
+    T fetch_sub(D a, memory_order mo = memory_order_seq_cst) {
         e3::pre(); T o = B::fetch_sub(a, mo); e3::post("fs", this, e3::show(a), e3::show(o)); return o;
     }
-    template <class U = T> U fetch_or(U a, memory_order mo = memory_order_seq_cst) {
+    T fetch_or(T a, memory_order mo = memory_order_seq_cst) {
         e3::pre(); T o = B::fetch_or(a, mo); e3::post("fo", this, e3::show(a), e3::show(o)); return o;
     }
-    template <class U = T> U fetch_and(U a, memory_order mo = memory_order_seq_cst) {
+    T fetch_and(T a, memory_order mo = memory_order_seq_cst) {
         e3::pre(); T o = B::fetch_and(a, mo); e3::post("fn", this, e3::show(a), e3::show(o)); return o;
     }
-    template <class U = T> U fetch_xor(U a, memory_order mo = memory_order_seq_cst) {
+    T fetch_xor(T a, memory_order mo = memory_order_seq_cst) {
         e3::pre(); T o = B::fetch_xor(a, mo); e3::post("fx", this, e3::show(a), e3::show(o)); return o;
     }
-    template <class U = T> U operator++() { return fetch_add((U)1) + 1; }
-    template <class U = T> U operator++(int) { return fetch_add((U)1); }
-    template <class U = T> U operator--() { return fetch_sub((U)1) - 1; }
-    template <class U = T> U operator--(int) { return fetch_sub((U)1); }
-    template <class U = T> U operator+=(U a) { return fetch_add(a) + a; }
-    template <class U = T> U operator-=(U a) { return fetch_sub(a) - a; }
-    template <class U = T> U operator|=(U a) { return fetch_or(a) | a; }
-    template <class U = T> U operator&=(U a) { return fetch_and(a) & a; }
-    template <class U = T> U operator^=(U a) { return fetch_xor(a) ^ a; }
+    T operator++() { return fetch_add(1) + 1; }
+    T operator++(int) { return fetch_add(1); }
+    T operator--() { return fetch_sub(1) - 1; }
+    T operator--(int) { return fetch_sub(1); }
+    T operator+=(D a) { return fetch_add(a) + a; }
+    T operator-=(D a) { return fetch_sub(a) - a; }
+    T operator|=(T a) { return fetch_or(a) | a; }
+    T operator&=(T a) { return fetch_and(a) & a; }
+    T operator^=(T a) { return fetch_xor(a) ^ a; }
 };
 static_assert(sizeof(verif_atomic<uint64_t>) == sizeof(atomic<uint64_t>), "verif_atomic must keep the layout of std::atomic");
 }  // namespace std
